@@ -432,7 +432,61 @@ def handler_table(ctx, fname):
                 ctx.require(m is not None, 'handler %s of %s is not a method' % (v.attr, fname))
                 out[src(k).split('.')[-1]] = m
             return out
-    raise AnalysisError('anchor vanished: _handler_dict literal in IkeSa.%s' % fname)
+    # the same dispatch written as a chain of tests on the exchange type: `if <x>.exchange_type == Message.Exchange.K: h = self.m`
+    out = {}
+    for n in walk_no_nested(fi.node):
+        if isinstance(n, ast.If) and isinstance(n.test, ast.Compare) and len(n.test.ops) == 1 and isinstance(n.test.ops[0], ast.Eq):
+            sides = [n.test.left, n.test.comparators[0]]
+            ks = [x for x in sides if '.Exchange.' in src(x)]
+            subj = [x for x in sides if isinstance(x, ast.Attribute) and x.attr == 'exchange_type']
+            if len(ks) == 1 and len(subj) == 1:
+                for st in n.body:
+                    v = None
+                    if isinstance(st, ast.Assign) and isinstance(st.value, ast.Attribute):
+                        v = st.value
+                    elif isinstance(st, (ast.Assign, ast.Expr, ast.Return)) and isinstance(getattr(st, 'value', None), ast.Call) \
+                            and isinstance(st.value.func, ast.Attribute):
+                        v = st.value.func
+                    if v is not None and isinstance(v.value, ast.Name) and v.value.id == fi.self_name and fi.cls.lookup(v.attr) is not None:
+                        out[src(ks[0]).split('.')[-1]] = fi.cls.lookup(v.attr)
+                        break
+    if len(out) >= 3:
+        return out
+    raise AnalysisError('anchor vanished: handler dispatch (dict literal or chain of exchange-type tests) in IkeSa.%s' % fname)
+
+
+def notify_field_of(ctx, exc_name, field):
+    """value term of argument `field` of the PayloadNOTIFY that from_exception builds for an exception whose class is exactly
+    message.<exc_name>: every test `type(ex) == <class>` / isinstance(ex, <class>) is decided - whether the mapping is written as a table
+    looked up by class, a chain of tests, or a mix.  (FE, term) or (FE, None)"""
+    from ..sval import NONE, strip_ids
+    from .. import tq
+    fe = ctx.func('message.PayloadNOTIFY.from_exception')
+    FE = ctx.sval(fe)
+    note = FE.ret()
+    if not tq.is_call(note, 'new message.PayloadNOTIFY'):
+        return FE, None
+    nt = tq.args(note).get(field, NONE)
+    tex = strip_ids(FE.expr('type(%s)' % fe.call_params()[0]))
+
+    def decide(test):
+        test = strip_ids(test)
+        if test[0] == 'cmp' and test[1] in ('==', 'is') and tex in test[2:]:
+            other = test[3] if test[2] == tex else test[2]
+            if other[0] == 'global':
+                return other[1].split('.')[-1] == exc_name
+        if tq.is_call(test, 'builtins.isinstance'):
+            a = list(tq.args(test).values())
+            if len(a) == 2 and a[0] == ('param', fe.call_params()[0]) and a[1][0] == 'global':
+                return ctx.escape('engine', kills=engine_kills(ctx)).hier.is_sub(exc_name, a[1][1].split('.')[-1])
+        return None
+    return FE, tq.restrict(nt, decide)
+
+
+def notify_type_of(ctx, exc_name):
+    """member name of the notification type for exactly that exception class, or None"""
+    _, r = notify_field_of(ctx, exc_name, 'notification_type')
+    return r[1].split('.')[-1] if r is not None and r[0] == 'global' else None
 
 
 def exchange_of(expr):
